@@ -42,6 +42,8 @@ def jobs(tier):
         # same time (several early messages buffered for the next round)
         {"name": "probe-star3-r2-all", "kind": "probe", "graph": "star3", "rounds": 1, "rounds_for": {"a": 2}, "per_round": False,
          "via": "return", "free": []},
+        {"name": "probe-triangle-r1-mixed", "kind": "probe", "graph": "triangle", "rounds": 1, "per_round": False, "via": "mixed",
+         "free": []},
         {"name": "dsatuto-pair-r3", "kind": "algo", "algo": "dsatuto", "spec": spec("pair", "min"), "rounds": 3},
     ]
     if tier == "thorough":
@@ -84,7 +86,10 @@ def _make_probe(eng, name, neighbors, p, log):
                 k = eng.choose(2 ** len(neighbors), "subset_%s_%d" % (name, phase))
                 subset = [n for i, n in enumerate(neighbors) if (k >> i) & 1]
             if p["via"] == "choose":
-                via = eng.pick(["return", "post"], "via_%s_%d" % (name, phase)) if subset else "return"
+                opts = ["return", "post"] + (["mixed"] if len(subset) > 1 else [])
+                via = eng.pick(opts, "via_%s_%d" % (name, phase)) if subset else "return"
+            elif p["via"] == "mixed":
+                via = "mixed" if len(subset) > 1 else "return"
             else:
                 via = p["via"]
             self.fixed_subset, self.fixed_via = subset, via
@@ -106,6 +111,10 @@ def _make_probe(eng, name, neighbors, p, log):
                 for n in subset:
                     self.post_msg(n, ProbeMsg((name, phase)))
                 return None
+            if via == "mixed":
+                # first neighbour through post_msg, the others through the returned list, in the same round
+                self.post_msg(subset[0], ProbeMsg((name, phase)))
+                return [(n, ProbeMsg((name, phase))) for n in subset[1:]]
             return [(n, ProbeMsg((name, phase))) for n in subset]
     return Probe()
 
